@@ -78,6 +78,8 @@ func runC16(c *core.Ctx) {
 	c.Doc("C16.terminate", "Terminate takes the objects out of the service under the exclusive lock and runs their hooks afterwards, outside the lock", 2)
 	ruleTerminateDetaches(c, lc, objects, boxes, class)
 
+	c.Doc("C16.activation", "Add installs an object only if its activation succeeded and reports a refused activation to its caller", 2)
+	ruleActivationErrorKept(c, "C16.activation", objects)
 	c.Doc("C16.unique-id", "Add stores under a key only after a failed lookup of that very key", 1)
 	ruleUniqueID(c, objects)
 
@@ -663,4 +665,88 @@ func sameParamPosition(a, b ssa.Value) bool {
 		return false
 	}
 	return pa.Name() == pb.Name() && types.Identical(pa.Type(), pb.Type())
+}
+
+// ruleActivationErrorKept: serviceImpl.Add hands the object its activation and
+// installs it only if the activation succeeded, and tells its caller when it
+// did not: the error of obj.Activate reaches a non-nil error return on every
+// path on which it is set, and the object is stored in the table only where
+// that error is nil.  (A refused object that is installed is callable although
+// it never became active, and is terminated later as if it had.)
+func ruleActivationErrorKept(c *core.Ctx, rule string, objects *types.Var) {
+	fn := c.Func("bus", "serviceImpl", "Add")
+	if fn == nil {
+		c.Undecided(rule, "bus.serviceImpl.Add", token.NoPos, "anchor not found")
+		return
+	}
+	var act *ssa.Call
+	for _, call := range core.Calls(fn) {
+		cc := call.Common()
+		if cc.IsInvoke() && cc.Method.Name() == "Activate" {
+			if cv, ok := call.(*ssa.Call); ok {
+				act = cv
+			}
+		}
+	}
+	if act == nil {
+		c.Undecided(rule, "bus.serviceImpl.Add/activate", fn.Pos(), "no call of Activate found in Add")
+		return
+	}
+	ei := hasErrorResult(fn.Signature)
+	bad := errorPropagates(c, fn, act, act, ei, "Activate")
+	c.Check(bad == "", rule, "bus.serviceImpl.Add/activation-error", act.Pos(), "a refused activation reaches the caller as an error", bad)
+	// the object itself is installed only where the activation succeeded
+	isErr := func(v ssa.Value) bool { return core.Canon(v) == ssa.Value(act) }
+	obj := fn.Params[1]
+	bad = ""
+	for _, f := range unitOf(c, fn) {
+		ups, _ := mapWrites(f, objects)
+		for _, up := range ups {
+			v := core.Canon(up.Value)
+			if mi, ok := v.(*ssa.MakeInterface); ok {
+				v = core.Canon(mi.X)
+			}
+			stored := v == ssa.Value(obj)
+			if p, isParam := v.(*ssa.Parameter); isParam && f != fn {
+				// a helper handed the object (settle(index, obj, err))
+				all, _ := c.CallSites()
+				for _, cs := range all[f] {
+					for i, q := range f.Params {
+						if q == p && i < len(cs.Common().Args) && core.Canon(cs.Common().Args[i]) == ssa.Value(obj) {
+							stored = true
+						}
+					}
+				}
+			}
+			if !stored {
+				continue
+			}
+			ok := false
+			if f == fn {
+				ok = core.Guarded(fn, up, core.Eq(isErr, core.IsNilConst))
+			} else {
+				// in the helper: guarded by its error parameter being nil, the call passing Activate's error
+				for _, q := range f.Params {
+					if core.IsErrorType(q.Type()) {
+						qq := q
+						isP := func(v ssa.Value) bool { return core.Canon(v) == ssa.Value(qq) }
+						if core.Guarded(f, up, core.Eq(isP, core.IsNilConst)) {
+							all, _ := c.CallSites()
+							for _, cs := range all[f] {
+								for i, q2 := range f.Params {
+									if q2 == qq && i < len(cs.Common().Args) && flowsFrom(cs.Common().Args[i], act, 0) {
+										ok = true
+									}
+								}
+							}
+						}
+					}
+				}
+			}
+			if !ok {
+				bad = "the object is stored in the table (at " + c.Pos(up.Pos()) + ") on a path where its activation may have failed: a refused object becomes callable, and is terminated later although it was never active"
+			}
+		}
+	}
+	c.Check(bad == "", rule, "bus.serviceImpl.Add/installed-when-active", act.Pos(), "the object is installed only where Activate returned nil", bad)
 }
